@@ -562,6 +562,22 @@ func (t *tr) bls(i int, rnd *choice.Src) {
 		g, err := crypto.BLSReconstructThresholdSignature(n, th, sh, who)
 		t.add("thr.sig", g)
 		t.addf("thr.err", "%v", err)
+		// consecutive reconstructions that share a prefix of the signer list, differ in the last
+		// signer, or use the same set in another order (anything memoised between calls shows here)
+		if n >= th+2 {
+			sh2 := append(append([]crypto.Signature(nil), sh[:th]...), sh[th+1])
+			who2 := append(append([]int(nil), who[:th]...), who[th+1])
+			g2, err := crypto.BLSReconstructThresholdSignature(n, th, sh2, who2)
+			t.add("thr.sig.lastdiffers", g2)
+			t.addf("thr.err", "%v", err)
+			ok, _ := gpk.Verify(g2, msg, h)
+			t.addf("thr.verify", "%v", ok)
+		}
+		sh3, who3 := append([]crypto.Signature(nil), sh[:th+1]...), append([]int(nil), who[:th+1]...)
+		sh3[0], sh3[th], who3[0], who3[th] = sh3[th], sh3[0], who3[th], who3[0]
+		g3, err := crypto.BLSReconstructThresholdSignature(n, th, sh3, who3)
+		t.add("thr.sig.reordered", g3)
+		t.addf("thr.err", "%v", err)
 	}
 	// many distinct messages and keys (more pairings than one Miller-loop batch)
 	{
